@@ -415,16 +415,16 @@ fn ob_c06_repetition_table(has_left: bool, lower: usize, bounded: bool, upper: u
     repetition_case(false, 6, 0, has_left, lower, up);
     repetition_case(false, 7, 0, has_left, lower, up);
 }
-//@ob C06.repetition.table.all-ends
+//@ob C06.repetition.table.all-ends.text
 //@ props: C06 C12 C05
 //@ kind: complete
 //@ tier: thorough
 //@ unwind: 6
 //@ timeout: 1500
 //@ fns: src/rule.rs::branch::check_repetition src/rule.rs::branch::has_starting_root src/rule.rs::Terminals::map src/token/variance/natural.rs::NaturalRange::lower src/token/mod.rs::Token::boundary
-//@ pre: a repetition body with leaf terminals: every kind of first AND last terminal (8 x 8), and every single terminal; any ordered, non-degenerate bounds (the `bounds` rule runs first); a left neighbour present or absent. Terminal kinds are constants at each call site
-//@ post: the REAL check_repetition rejects the body exactly when (a) nothing precedes the repetition, it may occur zero times (lower bound 0, WHATEVER the upper bound) and its body begins with a separator or a rooted tree wildcard -- no optional repetition can root the expression --, or (b) the body begins and ends with a component boundary (repeating it would make them adjacent), or (c) the body is solely a separator or solely a zero-or-more wildcard
-fn ob_c06_repetition_table_all_ends(has_left: bool, lower: usize, bounded: bool, upper: usize) {
+//@ pre: a repetition body with leaf terminals: first terminal of kind literal, `?` or class, every kind of last terminal (all eight), and the single-terminal bodies of those kinds; any ordered, non-degenerate bounds; a left neighbour present or absent (the 72 pairs in one harness gave no verdict in 25 min; split by first terminal)
+//@ post: as C06.repetition.table
+fn ob_c06_repetition_table_all_ends_text(has_left: bool, lower: usize, bounded: bool, upper: usize) {
     vassume!(!bounded || (lower <= upper && upper != 0));
     vcover!(lower == 0 && bounded && upper == 3 && !has_left);
     let up = if bounded { Some(upper) } else { None };
@@ -444,6 +444,31 @@ fn ob_c06_repetition_table_all_ends(has_left: bool, lower: usize, bounded: bool,
     repetition_case(true, 1, 5, has_left, lower, up);
     repetition_case(true, 1, 6, has_left, lower, up);
     repetition_case(true, 1, 7, has_left, lower, up);
+    repetition_case(true, 4, 0, has_left, lower, up);
+    repetition_case(true, 4, 1, has_left, lower, up);
+    repetition_case(true, 4, 2, has_left, lower, up);
+    repetition_case(true, 4, 3, has_left, lower, up);
+    repetition_case(true, 4, 4, has_left, lower, up);
+    repetition_case(true, 4, 5, has_left, lower, up);
+    repetition_case(true, 4, 6, has_left, lower, up);
+    repetition_case(true, 4, 7, has_left, lower, up);
+    repetition_case(false, 0, 0, has_left, lower, up);
+    repetition_case(false, 1, 0, has_left, lower, up);
+    repetition_case(false, 4, 0, has_left, lower, up);
+}
+//@ob C06.repetition.table.all-ends.zom
+//@ props: C06 C12 C05
+//@ kind: complete
+//@ tier: thorough
+//@ unwind: 6
+//@ timeout: 1500
+//@ fns: src/rule.rs::branch::check_repetition src/rule.rs::branch::has_starting_root src/rule.rs::Terminals::map src/token/variance/natural.rs::NaturalRange::lower src/token/mod.rs::Token::boundary
+//@ pre: a repetition body with leaf terminals: first terminal of kind `*` or `$`, every kind of last terminal (all eight), and the single-terminal bodies of those kinds; any ordered, non-degenerate bounds; a left neighbour present or absent (the 72 pairs in one harness gave no verdict in 25 min; split by first terminal)
+//@ post: as C06.repetition.table
+fn ob_c06_repetition_table_all_ends_zom(has_left: bool, lower: usize, bounded: bool, upper: usize) {
+    vassume!(!bounded || (lower <= upper && upper != 0));
+    vcover!(lower == 0 && bounded && upper == 3 && !has_left);
+    let up = if bounded { Some(upper) } else { None };
     repetition_case(true, 2, 0, has_left, lower, up);
     repetition_case(true, 2, 1, has_left, lower, up);
     repetition_case(true, 2, 2, has_left, lower, up);
@@ -460,14 +485,22 @@ fn ob_c06_repetition_table_all_ends(has_left: bool, lower: usize, bounded: bool,
     repetition_case(true, 3, 5, has_left, lower, up);
     repetition_case(true, 3, 6, has_left, lower, up);
     repetition_case(true, 3, 7, has_left, lower, up);
-    repetition_case(true, 4, 0, has_left, lower, up);
-    repetition_case(true, 4, 1, has_left, lower, up);
-    repetition_case(true, 4, 2, has_left, lower, up);
-    repetition_case(true, 4, 3, has_left, lower, up);
-    repetition_case(true, 4, 4, has_left, lower, up);
-    repetition_case(true, 4, 5, has_left, lower, up);
-    repetition_case(true, 4, 6, has_left, lower, up);
-    repetition_case(true, 4, 7, has_left, lower, up);
+    repetition_case(false, 2, 0, has_left, lower, up);
+    repetition_case(false, 3, 0, has_left, lower, up);
+}
+//@ob C06.repetition.table.all-ends.boundary
+//@ props: C06 C12 C05
+//@ kind: complete
+//@ tier: thorough
+//@ unwind: 6
+//@ timeout: 1500
+//@ fns: src/rule.rs::branch::check_repetition src/rule.rs::branch::has_starting_root src/rule.rs::Terminals::map src/token/variance/natural.rs::NaturalRange::lower src/token/mod.rs::Token::boundary
+//@ pre: a repetition body with leaf terminals: first terminal of kind separator, tree wildcard or rooted tree wildcard, every kind of last terminal (all eight), and the single-terminal bodies of those kinds; any ordered, non-degenerate bounds; a left neighbour present or absent (the 72 pairs in one harness gave no verdict in 25 min; split by first terminal)
+//@ post: as C06.repetition.table
+fn ob_c06_repetition_table_all_ends_boundary(has_left: bool, lower: usize, bounded: bool, upper: usize) {
+    vassume!(!bounded || (lower <= upper && upper != 0));
+    vcover!(lower == 0 && bounded && upper == 3 && !has_left);
+    let up = if bounded { Some(upper) } else { None };
     repetition_case(true, 5, 0, has_left, lower, up);
     repetition_case(true, 5, 1, has_left, lower, up);
     repetition_case(true, 5, 2, has_left, lower, up);
@@ -492,11 +525,6 @@ fn ob_c06_repetition_table_all_ends(has_left: bool, lower: usize, bounded: bool,
     repetition_case(true, 7, 5, has_left, lower, up);
     repetition_case(true, 7, 6, has_left, lower, up);
     repetition_case(true, 7, 7, has_left, lower, up);
-    repetition_case(false, 0, 0, has_left, lower, up);
-    repetition_case(false, 1, 0, has_left, lower, up);
-    repetition_case(false, 2, 0, has_left, lower, up);
-    repetition_case(false, 3, 0, has_left, lower, up);
-    repetition_case(false, 4, 0, has_left, lower, up);
     repetition_case(false, 5, 0, has_left, lower, up);
     repetition_case(false, 6, 0, has_left, lower, up);
     repetition_case(false, 7, 0, has_left, lower, up);
@@ -523,32 +551,78 @@ fn repetition_case(two: bool, ks: u8, ke: u8, has_left: bool, lower: usize, uppe
     core::mem::forget((ts, te, tl));
 }
 
+// The starting / ending SEARCH of a neighbour or terminal that is itself a branch is a walk over a token
+// tree: measured out of reach (a starting walk over the one-level token `</:1,>`: CBMC out of memory;
+// over `</a:1,>`: no verdict in 25 min). For a non-leaf first terminal the search is therefore
+// abstracted (-Z stubbing of the hoisted `is_some_and_any_in`) to an ORACLE that answers an arbitrary
+// boolean `q`; what is decided is that the tables CONSULT the search and FOLLOW its answer.
+#[cfg(kani)]
+static mut ANY_IN_ANSWER: bool = false;
+#[cfg(kani)]
+static mut ANY_IN_CALLS: u32 = 0;
+#[cfg(kani)]
+fn any_in_oracle<'i, 't, A, R, I, P>(token: Option<&'i Token<'t, A>>, _traversal: R, _predicate: P) -> bool
+where
+    R: FnOnce(&'i Token<'t, A>) -> I,
+    I: Iterator<Item = TokenEntry<'i, 't, A>>,
+    P: FnMut(&'i Token<'t, A>) -> bool,
+{
+    // SAFETY: single-threaded verifier-only state.
+    unsafe {
+        ANY_IN_CALLS += 1;
+        token.is_some() && ANY_IN_ANSWER
+    }
+}
+#[cfg(not(kani))]
+fn any_in_oracle<'i, 't, A, R, I, P>(_: Option<&'i Token<'t, A>>, _: R, _: P) -> bool
+where
+    R: FnOnce(&'i Token<'t, A>) -> I,
+    I: Iterator<Item = TokenEntry<'i, 't, A>>,
+    P: FnMut(&'i Token<'t, A>) -> bool,
+{
+    unimplemented!("verifier-only")
+}
+#[cfg(kani)]
+fn arm_any_in(q: bool) {
+    // SAFETY: single-threaded verifier-only state.
+    unsafe {
+        ANY_IN_ANSWER = q;
+        ANY_IN_CALLS = 0;
+    }
+}
+#[cfg(not(kani))]
+fn arm_any_in(_: bool) {}
+
 //@ob C06.branch.rooted.nested
 //@ props: C06 C12 C05
 //@ kind: complete
-//@ tier: thorough
+//@ replay: none
 //@ unwind: 6
-//@ timeout: 1500
-//@ fns: src/rule.rs::branch::check_alternation src/rule.rs::branch::check_repetition src/rule.rs::branch::has_starting_root src/rule.rs::branch::is_rooting src/token/walk.rs::starting
-//@ pre: an alternation branch, or the body of an OPTIONAL repetition, that begins with a nested repetition `</a:1,>` (at least one occurrence of a body that begins with a separator, so the nested token is always rooted); nothing precedes the enclosing branch
-//@ post: the REAL check_alternation / check_repetition reject it as a rooted sub-glob: no alternation branch and no optional repetition can root the expression, also when the rooting token sits inside a nested branch (`{</a:1,>,b}`, `<</a:1,>:0,1>` would be sometimes rooted); with something on the left nothing is rejected
-fn ob_c06_branch_rooted_nested(has_left: bool, optional: bool) {
-    vcover!(!has_left && optional);
-    rooted_nested_case(false, 0, has_left, optional);
-    rooted_nested_case(true, 0, has_left, optional);
+//@ stub: is_some_and_any_in=any_in_oracle
+//@ fns: src/rule.rs::branch::check_alternation src/rule.rs::branch::check_repetition src/rule.rs::branch::has_starting_root
+//@ pre: an alternation branch, or the body of a repetition (optional or not), whose FIRST terminal is itself a branch (here the token of `</a:1,>`), alone or followed by a text leaf; a left neighbour present or absent; the starting search of that nested branch for a rooting token answers q (arbitrary)
+//@ post: the REAL check_alternation rejects the branch as a rooted sub-glob exactly when nothing precedes it and the search finds a rooting token; the REAL check_repetition exactly when, in addition, the repetition may occur zero times: no alternation branch and no optional repetition can root the expression ALSO when the rooting token sits inside a nested branch (`{</a:1,>,b}`, `<</a:1,>:0,1>` built and were sometimes rooted before F5). First version of this obligation (real walk, no oracle) found F5 on the pinned tree in 73 s and gives no verdict on the repaired tree, see DESIGN 11.7
+fn ob_c06_branch_rooted_nested(ke: u8, has_left: bool, optional: bool, q: bool) {
+    vassume!(ke <= 4);
+    vcover!(!has_left && optional && q);
+    vcover!(!has_left && !q);
+    rooted_nested_case(false, ke, has_left, optional, q);
+    rooted_nested_case(true, ke, has_left, optional, q);
 }
-fn rooted_nested_case(two: bool, ke: u8, has_left: bool, optional: bool) {
+fn rooted_nested_case(two: bool, ke: u8, has_left: bool, optional: bool, q: bool) {
     let ts = crate::token::verif_kani_token::rooted_repetition_token((1, 8));
     let (te, tl) = (v_tok(ke), v_tok(0));
     let terminals = if two { Terminals::StartEnd(&ts, &te) } else { Terminals::Only(&ts) };
     let outer = Outer { left: if has_left { Some(&tl) } else { None }, right: None };
+    arm_any_in(q);
     let r = check_alternation(terminals, outer);
-    assert!((v_kind_of(&r) == 1) == !has_left, "C06 an alternation branch that begins with an always-rooted nested branch roots the expression");
+    assert!((v_kind_of(&r) == 1) == (!has_left && q), "C06 an alternation branch that begins with a rooted nested branch roots the expression");
     assert!(v_kind_of(&r) <= 1, "C06 nothing else is wrong with it");
     core::mem::forget(r);
     let variance = if optional { NaturalRange::from_closed_and_open(0, Some(1)) } else { NaturalRange::from_closed_and_open(1, Some(2)) };
+    arm_any_in(q);
     let r = check_repetition(terminals, outer, variance);
-    assert!((v_kind_of(&r) == 1) == (!has_left && optional), "C06 an optional repetition whose body begins with an always-rooted nested branch roots the expression");
+    assert!((v_kind_of(&r) == 1) == (!has_left && optional && q), "C06 an optional repetition whose body begins with a rooted nested branch roots the expression");
     assert!(v_kind_of(&r) <= 1, "C06 nothing else is wrong with it");
     core::mem::forget(r);
     core::mem::forget((ts, te, tl));
